@@ -566,7 +566,7 @@ func conflates(m *ref.SpecModel) bool {
 func TestSeededDefects(t *testing.T) {
 	rec.Rule(rule + ruleMore)
 	rec.Assume("diagnostics are recognised by their message templates; a diagnostic that is a consequence of a seeded defect (e.g. a token declared only with an unknown predefined name has no definition) counts as present; token conflicts reported by DFA() belong to C03 and are ignored here")
-	rec.Check(t, 4000, 160000, func(t *rapid.T) {
+	rec.Check(t, 10000, 160000, func(t *rapid.T) {
 		lits := []string{"a", "b", "+", "if", `q\"`, `\\`}
 		if rapid.IntRange(0, 24).Draw(t, "conflatingLiteral") == 0 {
 			lits = append(lits, "TK")
